@@ -224,3 +224,20 @@ class C04Conv(ConvRef):
 
     def state(self, w):
         return self.ref_state(w)
+
+
+from .monitors import C06 as _C06
+
+
+class C12Order(_C06):
+    """entry order on conveyors, also with several outstanding / cancelled retrieval reservations: the possible-worlds
+    FIFO reference of C06 (availability order == entry order on a belt), reported under C12"""
+    prop = "C12"
+
+    def after(self, w, obs):
+        out = _C06.after(self, w, obs)
+        for v in out:
+            v["property"] = "C12"
+            v["clause"] = "leave-in-entry-order"
+            v["facets"] = {"conv": w.spec.kind, "acc": bool(w.spec.get("acc", 1)), "after_cancel_of_granted": self.cancelled_granted}
+        return out
